@@ -486,3 +486,94 @@ def run(prog, tier, repo):
     res.analysed['token_classes'] = P.n
     res.analysed['summaries'] = len(P.summ)
     return [res]
+
+
+# ---------------------------------------------------------------------------------------------------------------------
+# LIST-END-TOKEN (C08): the comma-separated-list helper is told which token closes the list; it uses that only to recognise
+# a trailing comma (`a, b, )`). The printer emits a trailing comma whenever a comment precedes the closing bracket, so the
+# formatted text re-parses only if the helper is given the very token the production then consumes as the closing bracket.
+# Rule: after every call of the list helper with a constant end token E, the first closing-token assertion on every path
+# (in the same function, or - if the function returns first - in each caller right after the call) is for E.
+
+def run_list_end_token(prog, tier, repo):
+    res = RuleResult('LIST-END-TOKEN', 'C08: every comma-separated list is parsed with the end token that the production consumes next '
+                     '(otherwise `<A, B,>` - which the printer emits when a comment precedes `>` - no longer parses)')
+    P = Progress(prog)
+    if not P.ok:
+        res.cannot_decide('lexer enums / parser primitives')
+        return [res]
+    helpers = [b for b in P.bodies.values() if 'parse_comma_separated_list_with_end_token' in b.name and b.kind != 'closure']
+    if not helpers:
+        res.cannot_decide('the comma-separated list helper')
+        return [res]
+    hid = {b.id for b in helpers}
+    asserts = [b for b in P.bodies.values() if b.name.endswith('::assert_and_consume_operator')]
+    if len(asserts) != 1:
+        res.cannot_decide('assert_and_consume_operator')
+        return [res]
+    aid = asserts[0].id
+
+    def const_op(b, t):
+        for o in t[3]:
+            k = P.kind_of(b, o, None)
+            if k and k[0] == 'op':
+                return k[1]
+        return None
+
+    def first_asserts_after(b, start_block, depth=0):
+        """set of (operator index or None) of the first closing-token assertions reached from the successor of start_block;
+        'RET' when a path returns first"""
+        cfg = cfg_of(b)
+        out = set()
+        seen = set()
+        t0 = b.blocks[start_block].term
+        stack = [t0[5]] if t0[0] == 'call' and t0[5] is not None else []
+        while stack:
+            x = stack.pop()
+            if x in seen or b.blocks[x].cleanup:
+                continue
+            seen.add(x)
+            t = b.blocks[x].term
+            if t[0] == 'call' and callee(t)[0] == aid:
+                out.add(const_op(b, t))
+                continue
+            if t[0] == 'ret':
+                out.add('RET')
+                continue
+            stack.extend(cfg.succ[x])
+        return out
+    n = 0
+    for b in sorted(P.bodies.values(), key=lambda x: x.name):
+        if b.id in hid:
+            continue
+        for bi, bl in enumerate(b.blocks):
+            t = bl.term
+            if bl.cleanup or t[0] != 'call' or callee(t)[0] not in hid:
+                continue
+            E = const_op(b, t)
+            n += 1
+            nb = sum(1 for i in res.instances if i.key.startswith(f'list:{b.name}#')) + 1
+            key = f'list:{b.name}#{nb}'
+            if E is None:
+                res.ok(key, b.loc(t[7]), 'end token passed through from the caller')
+                continue
+            firsts = first_asserts_after(b, bi)
+            if 'RET' in firsts:
+                firsts.discard('RET')
+                # continue in the callers
+                for c in P.bodies.values():
+                    for ci, cl in enumerate(c.blocks):
+                        ct = cl.term
+                        if not cl.cleanup and ct[0] == 'call' and callee(ct)[0] == b.id:
+                            firsts |= {x for x in first_asserts_after(c, ci) if x != 'RET'}
+            wrong = [x for x in firsts if x != E]
+            en = P.op.variants[E].name
+            if not wrong:
+                res.ok(key, b.loc(t[7]), f'list ends at {en}; the production consumes {en} next')
+            else:
+                wn = ', '.join(P.op.variants[x].name if x is not None else 'a computed token' for x in wrong)
+                res.violation(key, b.loc(t[7]), f'{b.name} parses a comma-separated list that is told to end at {en}, but the closing '
+                              f'token consumed next is {wn}: a trailing comma before {wn} is rejected, and the printer emits exactly '
+                              f'that when a comment precedes the closing bracket, so formatted code no longer parses')
+    res.floor('comma-separated list call sites', n, 8)
+    return [res]
